@@ -816,7 +816,7 @@ impl BuildTargetActor {
         old(tr).inlog.len() == 0, old(tr).last_b == Map::<ActorId, Word>::empty() && old(tr).last_s == Map::<ActorId, Word>::empty(),
         old(tr).requested == Set::<(ActorId, ExecutionKind)>::empty(),
         old(tr).unreq == Set::<(ActorId, ExecutionKind)>::empty(),
-        !old(tr).sent_unreq, !old(tr).sent_inval, !old(tr).term_seen, old(tr).ids_ok, old(tr).starts.len() == 0, old(tr).n_err == 0,
+        !old(tr).sent_unreq, !old(tr).sent_inval, !old(tr).term_seen, old(tr).ids_ok, old(tr).starts.len() == 0, old(tr).n_err == 0, old(tr).cancels_sent == 0,
     ensures
         /*[C04.no-early-exit]*/ final(tr).term_seen,
         /*[C01.identity]*/ final(tr).ids_ok,
@@ -843,6 +843,9 @@ impl BuildTargetActor {
                 /*[C11.build-true]*/ oks_actual(*tr, ExecutionKind::Build, true),
                 /*[C04.no-early-exit]*/ termination_event_received ==> tr.term_seen,
                 /*[C10.cancel-on-term]*/ tr.term_seen ==> termination_event_received,
+                // a build in flight is abandoned for one reason only: the termination event (anything else leaves a target that
+                // was started, is neither finished nor re-armed, and whose requesters wait for ever)
+                /*[C06.no-abandon,C04.no-abandon]*/ tr.cancels_sent > 0 ==> tr.term_seen,
                 /*[C04.no-unrequest]*/ tr.sent_unreq ==> nonempty(tr.unreq),
                 /*[C08.no-inval-oneshot]*/ tr.sent_inval ==> count_inval(tr.inlog) > 0,
                 /*[C04.request-deps]*/ self.helper.req(ExecutionKind::Build).len() > 0 ==> deps_requested(&self.helper, *tr, ExecutionKind::Build) && deps_requested(&self.helper, *tr, ExecutionKind::Service),
